@@ -409,6 +409,15 @@ func (r *runner) compareState(after string) bool {
 				return false
 			}
 		}
+		for pg := 1; pg < in.Pages; pg++ {
+			for c := 0; c < plan.NFar; c++ {
+				v, _ := mem.ReadUint32Le(uint32(plan.FarAddr(int32(pg), int32(c))))
+				if int32(v) != in.Far[pg][c] {
+					r.res.Fail("state-mismatch", "after %s: instance %d (%s) page %d far cell %d = %d, model has %d (grown pages start zeroed)", after, i, in.Name, pg, c, int32(v), in.Far[pg][c])
+					return false
+				}
+			}
+		}
 		for g := 0; g < plan.NGlobals; g++ {
 			v := mod.ExportedGlobal(fmt.Sprintf("g%d", g)).Get()
 			if int32(uint32(v)) != in.Globals[g] {
